@@ -1343,11 +1343,15 @@ class _Run:
             return
         # the run ends by leaving everything: the registry must answer as at the beginning
         self.cur_id = "end"
-        for ri, ureg in enumerate(self.regs):
-            self.plan.at_step("end")
-            ureg.disable_contexts()
-            self.models[ri].pop(None)
-            self.after(None, ri, "end")
+        try:
+            for ri, ureg in enumerate(self.regs):
+                self.plan.at_step("end")
+                ureg.disable_contexts()
+                self.models[ri].pop(None)
+                self.after(None, ri, "end")
+        except _EndRun:
+            # the other property of this world failed in the closing stage: no verdict, not a harness error
+            return
 
     def block(self, stmts):
         for s in stmts:
